@@ -301,6 +301,68 @@ RowsText ==
   Rws({"np.array_str", "np.array_repr", "np.array2string", "np.einsum_path", "np.can_cast", "np.common_type", "np.result_type",
        "np.min_scalar_type"}, {"p"}, 1, {"v4"}, One, "free", Unknown, NA, TRUE, {})
 
+\* ---------------------------------------------------------------- optional unit-carrying arguments
+\* For functions with several optional arguments that may carry units the instance enumerates the FORM of the call: for
+\* every optional slot "-" (not given), "b" (given bare) or "q" (given as a quantity) - including the combinations NumPy
+\* ignores or resolves by precedence (trapezoid: dx is ignored whenever x is given; histogram: range is ignored when
+\* bins is an array; density normalises the weights away).  Operands 1..nreq are required quantities, operand nreq + j is
+\* slot j.  Property side OptSig: the degree of a slot is zero unless it is a quantity AND NumPy uses it; a bare slot
+\* that the handler reads in the array's unit (deliberate: bare numbers adopt the unit) makes the call not
+\* scale-covariant by definition (OptNoCov) - the unit is still demanded.  Transition side OptIo: what the handler does.
+OptRow(f, tag, nreq, nslots, shs, das, cls) == [f |-> f, tag |-> tag, nreq |-> nreq, ns |-> nslots, shs |-> shs, das |-> das, cls |-> cls]
+LTT == <<"L", "T", "T">>
+OptRows == {
+  OptRow("np.trapezoid", "o", 1, 2, {"v4"}, {LTT, LTL, LLT}, "product"),             \* x, dx
+  OptRow("np.histogram", "o", 1, 2, {"v4"}, {LLT, LLL}, "product"),                  \* range, weights
+  OptRow("np.histogram", "od", 1, 2, {"v4"}, {LLT, LLL}, "product"),                 \* range, weights with density=True
+  OptRow("np.histogram", "obr", 1, 2, {"v4"}, {LLL}, "product"),                     \* bins (array), range
+  OptRow("np.interp", "olr", 2, 1, {"v4"}, {LTT}, "same"),                           \* (x, xp), fp; left= and right=
+  OptRow("np.interp", "oper", 2, 1, {"v4"}, {LTL}, "same"),                          \* (x, xp), fp; period=
+  OptRow("np.clip", "o", 1, 2, {"v4"}, {LLL}, "same"),                               \* a_min, a_max
+  OptRow("np.pad", "ocv", 1, 1, {"v4"}, {LL}, "same"),                               \* constant_values
+  OptRow("np.pad", "oev", 1, 1, {"v4"}, {LL}, "same"),                               \* mode="linear_ramp", end_values
+  OptRow("np.average", "o", 1, 1, {"v4"}, {LL, LT}, "same"),                         \* weights
+  OptRow("np.gradient", "o", 1, 2, {"m23"}, {LTT, LTL, LLT}, "product") }            \* spacing of axis 0, of axis 1
+SlotStates == {"-", "b", "q"}
+AllForms(ns) == IF ns = 1 THEN {<<a>> : a \in SlotStates} ELSE {<<a, b>> : a \in SlotStates, b \in SlotStates}
+IsQ(fm, j) == j <= Len(fm) /\ fm[j] = "q"
+IsB(fm, j) == j <= Len(fm) /\ fm[j] = "b"
+Given(fm, j) == j <= Len(fm) /\ fm[j] # "-"
+Q2(b) == IF b THEN 2 ELSE 0
+\* forms that are the plain call (nothing given) or that NumPy itself rejects are not generated
+OptOK(r, fm) ==
+  CASE r.f = "np.clip" -> Given(fm, 1) \/ Given(fm, 2)
+    [] r.f = "np.pad" \/ r.f = "np.average" \/ r.f = "np.interp" -> Given(fm, 1)
+    [] r.f = "np.histogram" /\ r.tag = "obr" -> fm[1] # "b" /\ fm[2] # "b"
+    [] r.f = "np.gradient" -> Given(fm, 1) /\ Given(fm, 2)
+    [] OTHER -> TRUE
+OptSig(r, fm) ==
+  CASE r.f = "np.trapezoid" -> SeqS(<<Dg(2, Q2(IsQ(fm, 1)), Q2(~Given(fm, 1) /\ IsQ(fm, 2)))>>)
+    [] r.f = "np.histogram" /\ r.tag = "o" -> SeqS(<<Dg(0, 0, Q2(IsQ(fm, 2))), D1>>)
+    [] r.f = "np.histogram" /\ r.tag = "od" -> SeqS(<<Dg(-2, 0, 0), D1>>)
+    [] r.f = "np.histogram" /\ r.tag = "obr" -> SeqS(<<Dg(0, 0, 0), D1>>)
+    [] r.f = "np.interp" -> SeqS(<<Dg(0, 2, 0)>>)
+    [] r.f = "np.gradient" -> SeqS(<<Dg(2, -Q2(IsQ(fm, 1)), 0), Dg(2, 0, -Q2(IsQ(fm, 2)))>>)
+    [] OTHER -> SeqS(<<Dg(2, 0, 0)>>)
+OptIo(r, fm) ==
+  CASE r.f = "np.trapezoid" -> Impl("none", <<Dg(2, Q2(IsQ(fm, 1)), Q2(~Given(fm, 1) /\ IsQ(fm, 2)))>>)
+    [] r.f = "np.histogram" /\ r.tag = "o" -> Impl("none", <<IF IsQ(fm, 2) THEN Dg(0, 0, 2) ELSE Bare, D1>>)
+    [] r.f = "np.histogram" /\ r.tag = "od" -> Impl("none", <<Dg(-2, 0, Q2(IsQ(fm, 2))), D1>>)
+    [] r.f = "np.pad" -> U1
+    [] OTHER -> NA
+\* a bare value read in the array's unit: clip bounds, pad values, histogram range, interp left/right/period
+OptNoCov(r, fm) ==
+  CASE r.f = "np.clip" -> IsB(fm, 1) \/ IsB(fm, 2)
+    [] r.f = "np.pad" \/ r.f = "np.interp" -> IsB(fm, 1)
+    [] r.f = "np.histogram" /\ r.tag \in {"o", "od"} -> IsB(fm, 1)
+    [] OTHER -> FALSE
+FormStr(fm) == IF Len(fm) = 1 THEN fm[1] ELSE fm[1] \o fm[2]
+OptAsRow(r, fm) ==
+  [f |-> r.f, t |-> r.tag \o ":" \o FormStr(fm), n |-> r.nreq + r.ns, shs |-> r.shs, das |-> r.das, cls |-> r.cls,
+   sig |-> OptSig(r, fm), io |-> OptIo(r, fm), ex |-> TRUE, fl |-> IF OptNoCov(r, fm) THEN {"nocov"} ELSE {},
+   q |-> [i \in 1..3 |-> i <= r.nreq \/ IsQ(fm, i - r.nreq)]]
+OptAllRows == UNION {{OptAsRow(r, fm) : fm \in {x \in AllForms(r.ns) : OptOK(r, x)}} : r \in OptRows}
+
 Rows == RowsRed \cup RowsShape \cup RowsMerge \cup RowsPower \cup RowsProduct \cup RowsQuot \cup RowsBare \cup RowsText
 RowNames == {r.f : r \in Rows}
 
